@@ -18,12 +18,18 @@ def whole_image_leg(run: common.Run, n, blocks=(0,), base=700_000):
     lines, metas = [], []
     for k in range(n):
         rng = run.rng(f'fuseimg{k}')
-        src, ref = rasters.pair_geometry(rng, 'dyadic', 'auto', max_src=14, margin=(1, 2))
+        def unsuitable(src, ref):
+            if src.px > ref.px or src.w < 6 or src.h < 6:
+                return True
+            # where GDAL's pixel arithmetic is inexact (pixel size no power of two) a source pixel centre exactly on a
+            # reference pixel edge is resolved by float noise (pair_geometry already avoids coinciding edges there)
+            return rasters.noisy_edges('dyadic', src.px, ref.px) and bool(resamp.centre_tie_mask(ref, src).any())
+        src, ref = rasters.pair_geometry(rng, 'dyadic', 'auto', max_src=14, margin=(1, 2), avoid_aligned_edges=True)
         tries = 0
-        while (src.px > ref.px or src.w < 6 or src.h < 6) and tries < 50:
-            src, ref = rasters.pair_geometry(rng, 'dyadic', 'auto', max_src=14, margin=(1, 2))
+        while unsuitable(src, ref) and tries < 50:
+            src, ref = rasters.pair_geometry(rng, 'dyadic', 'auto', max_src=14, margin=(1, 2), avoid_aligned_edges=True)
             tries += 1
-        if src.px > ref.px:
+        if unsuitable(src, ref):
             continue
         model = ['gain', 'gain-offset'][k % 2]
         ups = ['bilinear', 'nearest'][(k // 2) % 2]
